@@ -12,8 +12,8 @@ MODE = {"C08": "free", "C09": "fault", "C10": "mismatch"}
 
 BUDGET = {
     # (enum max_len, seeded runs per profile, miri runs)
-    "quick": {"C08": (6, 200000, 48), "C09": (5, 200000, 64), "C10": (8, 20000, 24)},
-    "thorough": {"C08": (9, 6000000, 600), "C09": (7, 10000000, 1200), "C10": (40, 1000000, 200)},
+    "quick": {"C08": (5, 200000, 48), "C09": (5, 200000, 64), "C10": (8, 20000, 24)},
+    "thorough": {"C08": (8, 6000000, 600), "C09": (7, 10000000, 1200), "C10": (40, 1000000, 200)},
 }
 
 LEVEL = {"C08": "exploration", "C09": "fault_enumeration", "C10": "fault_enumeration"}
@@ -93,7 +93,7 @@ def simpler_cases(case):
         c["extra_cap"] = 0
         yield c
     for i, a in enumerate(script):
-        if a in ("ConvMutPrev", "ConvReadPrev", "Abandon"):
+        if a in ("ConvMutPrev", "ConvReadPrev", "Abandon", "AbandonMutPrev"):
             c = copy.deepcopy(case)
             c["script"][i] = "Conv"
             yield c
